@@ -286,7 +286,10 @@ void process_ordering(MessageSpecMap& mspec)
 
 		unsigned cnt(0);
 		for (auto *ii : mo)
+		{
 			ii->_pos = ++cnt;
+			ii->_field_traits.set(FieldTrait::position); // fields added with -F had no position when the trait was built
+		}
 	}
 }
 
